@@ -27,6 +27,37 @@ def reply (toks : List String) : String :=
     match Wire.strOfHex h with
     | some t => let c := Language.fromTag t; s!"{c} {Wire.hexOfStr (Language.tag c)}"
     | none => "bad-request"
+  | ["cp_id", name] =>
+    match Gen.cpVariants.idxOf? name with
+    | some i => match CodePage.id i with
+      | some n => toString n
+      | none => "bad-request"
+    | none => "bad-request"
+  | ["cp_from_id", n] =>
+    match n.toInt? with
+    | some k => match CodePage.fromId k with
+      | some cp => Gen.cpVariants.getD cp "?"
+      | none => "none"
+    | none => "bad-request"
+  | ["cp_decode", "UsAscii", h] =>
+    match Wire.bytesOfHex h with
+    | some bs => Wire.hexOfStr (CodePage.asciiDecode bs)
+    | none => "bad-request"
+  | ["enc_loop", _name, h, codes] =>
+    match Wire.strOfHex h with
+    | some s =>
+      let cs := if codes = "_" then [] else codes.splitOn ","
+      if cs.length ≠ s.length then "bad-request" else
+      let table : List (Char × Option (List UInt8)) :=
+        (s.zip cs).map fun (c, code) => (c, if code = "?" then none else Wire.bytesOfHex code)
+      let enc : Char → Option (List UInt8) := fun c =>
+        match table.find? (·.1 == c) with
+        | some (_, e) => e
+        | none => none
+      match CodePage.encodeLoop enc Gen.cpEncodeBufferSize (s.length + 1) s [] with
+      | some bs => Wire.hexOfBytes bs
+      | none => "hang"
+    | none => "bad-request"
   | "eval" :: rest =>
     match WireExpr.parseRow rest with
     | some (row, rest2) =>
@@ -68,6 +99,8 @@ partial def loop (inp : IO.FS.Stream) (out : IO.FS.Stream) : IO Unit := do
   let toks := (line.trimAscii.toString.splitOn " ").filter (· ≠ "")
   if toks.isEmpty then
     out.putStrLn ""
+  else if (toks.headD "").startsWith "@" then
+    out.putStrLn "@"        -- oracle-only request: executed on the real crate only
   else
     out.putStrLn (reply toks)
   loop inp out
